@@ -642,6 +642,13 @@ class ExprMixin:
                 o = '&' + tn
         else:
             o = self.obj_text(obj, is_arrow)
+        if byptr and not self.is_const_method(d) and o.startswith('&(') and '.data[' in o:
+            # non-const method on an element nested in a container: run on a copy and write back
+            # (CBMC 6.11 mis-reads through pointers to nested array elements, DESIGN §2 item 8);
+            # the (reference-to-self) result is not available in this form
+            lv = o[2:-1]; ot = self.rec_cname(owner); tn = self.tmp('c')
+            self.rules['nested-element-method-by-copy'] += 1
+            return '({ %s %s = %s; %s(%s); %s = %s; (void)0; })' % (ot, tn, lv, fn, ', '.join(['&' + tn] + a), lv, tn)
         return self.wrap_ref_result(d, '%s(%s)' % (fn, ', '.join([o] + a)))
 
     def e_CXXOperatorCallExpr(self, n, rvalue=False):
